@@ -101,7 +101,7 @@ type rxRec struct {
 	t       time.Duration
 	info    pktInfo
 	bytes   []byte
-	used    bool // consumed by a hand-over (oracle bookkeeping)
+	canon   []byte // canonical re-encoding of the library decoding (lazily computed by the oracle)
 }
 
 type ccCfg struct {
